@@ -26,6 +26,15 @@
 (*   "domainAuth"   HTTP domain create / list / delete refuse unauthenticated connections      *)
 (*   "notifyAuth"   SendNotifyToClientHandler refuses unauthenticated connections              *)
 (*   "socksAuth"    the SOCKS5 tunnel request handler refuses unauthenticated connections       *)
+(* Devs names deviations nobody has (yet) made - the as-is tree has none; Commands_show_*.cfg    *)
+(* select them one at a time and TLC rejects each:                                               *)
+(*   "listByIndex"  the list commands keep what the caller's per-client index names and is not   *)
+(*                  the caller's own listening mapping, instead of re-checking the record's      *)
+(*                  listen / target client (equivalent while index and records agree)            *)
+(*   "replayByTypeId" / "replayById"  a response remembered under (type, command id) / the command *)
+(*                  id alone answers the next command carrying it, whoever sends it               *)
+(*   "faultOpen"    a failed read of the named object's record skips the party check              *)
+(* (CommandsExec.tla has the last two at the granularity of the code's steps)                     *)
 (*                                                                                            *)
 (* Every effect (object returned, added, deleted, modified, packet delivered to a client) is   *)
 (* logged with the identity the code acted for (id) and the authentication of the connection.  *)
@@ -39,8 +48,12 @@ CONSTANTS Sets,     \* row sets driven: {"server", "special"} or {"library"}
                     \*   "inactive" m1 and d1 switched to status inactive
                     \*   "migrated" a history that re-owns: CloudControl.MigrateClientMappings(A, C) made C the listen
                     \*              client of A's mappings (m1, mz); A's per-client index still names them
+                    \*   "migratedT" the same API called for the TARGET side, MigrateClientMappings(B, C): every mapping
+                    \*              filed under B (m1, m0) gets listen client C - A is no party of m1 any more (its index
+                    \*              still names m1), the server-listened m0 becomes C's
                     \* (k0, the code that created m1, is always there as the "already activated" code)
           Fixes,    \* see above
+          Devs,     \* see above ({} = the tree as it is)
           MaxCmds,  \* commands on c1
           RespToo,  \* TRUE: registered types are also sent in CommandResp packets (the executor does not look)
           Emit      \* TRUE: print one behaviour per explored command transition
@@ -55,7 +68,7 @@ VARIABLES cn,     \* c1: [auth, typ, reg, pend (challenge pending for whom), fai
           ctl,    \* client -> "v" (its own control connection) | "c1": who holds the client-id index entry
           st,     \* store: [wv, m1, m0, mz, m2, k1by, gen, d1, d2, tr]
           ncmd,
-          primed, \* the command <<type, object>> another client just sent with the command id the actor will reuse ("none")
+          primed, \* <<type, object, out, returned>> of the command another client just sent, whose command id the actor's next command reuses (<<>>: none)
           log,    \* ghost: effects [ty, auth, e] of the latest command (the invariants are evaluated after every command)
           outs,   \* ghost: [ty, auth, out] of the latest command
           hist
@@ -69,13 +82,17 @@ view == <<cn, ctl, st, ncmd, primed, log, outs>>
 Present(s)    == (IF s.m1 THEN {"m1"} ELSE {}) \cup (IF s.m2 # None THEN {"m2"} ELSE {})
                  \cup (IF s.m0 THEN {"m0"} ELSE {}) \cup (IF s.mz THEN {"mz"} ELSE {})
 \* ListenClientID / TargetClientID as stored; "none" = client id 0 - the same value an unauthenticated connection has
-Owner1(s)     == IF s.wv = "migrated" THEN "C" ELSE "A"
-Listen(s, m)  == CASE m = "m1" -> Owner1(s) [] m = "mz" -> Owner1(s) [] m = "m0" -> None [] OTHER -> s.m2
+Listen0(s, m) == CASE m \in {"m1", "mz"} -> "A" [] m = "m0" -> None [] OTHER -> s.m2      \* as created
 Target(s, m)  == IF m = "mz" THEN None ELSE "B"
+\* MigrateClientMappings(from, to): ListenClientID := to on every mapping the index files under from (whatever its role there)
+Listen(s, m)  == CASE s.wv = "migrated"  /\ m \in {"m1", "mz"} -> "C"
+                   [] s.wv = "migratedT" /\ m \in {"m1", "m0"} -> "C"
+                   [] OTHER -> Listen0(s, m)
 Parties(s, m) == {Listen(s, m), Target(s, m)} \ {None}
 MapsOf(s, a)  == {m \in Present(s) : a \in Parties(s, m)}
-\* the per-client index the list commands start from: after the migration it still files m1 / mz under A, not under C
-Indexed(s, a) == {m \in Present(s) : IF s.wv = "migrated" /\ m \in {"m1", "mz"} THEN a \in {"A", Target(s, m)} ELSE a \in Parties(s, m)}
+\* the per-client index the list commands start from: filled when a mapping is created, not touched by the migration -
+\* afterwards it still files m1 under A, and nothing under C
+Indexed(s, a) == {m \in Present(s) : a \in {Listen0(s, m), Target(s, m)}}
 Listed(s, a)  == Indexed(s, a) \cap MapsOf(s, a)
 CodesOf(s, a) == (IF a = "B" THEN {"k1"} ELSE {}) \cup (IF a \in s.gen THEN {"g" \o a} ELSE {})
 Doms(s)       == (IF s.d1 THEN {"d1"} ELSE {}) \cup (IF s.d2 # None THEN {"d2"} ELSE {})
@@ -95,19 +112,41 @@ Base(ty) == CASE ty = "SOCKS5TunnelRequestCmd:resp" -> "SOCKS5TunnelRequestCmd"
               [] OTHER -> ty
 
 \* a = ControlConnection.ClientID of c1 ("none" = 0), rg = a ControlConnection exists for c1
-\* rows whose handler reads the named object's main record for its party check; flt = "read1": that read fails once
+\* Storage faults (flt): "read1" = the first read of the named object's main record during the command fails (transient),
+\* "readAll" = every read of it fails while the command runs.
+\* rows whose handler reads that record for its party check, through the handlers' repositories:
 FaultRows == {"MappingGet", "MappingDelete", "HTTPDomainDelete", "ConnectionCodeActivate"}
+\* rows handled in the session layer: the mapping is read through the cloud-control adapter
+SessionFaultRows == {"SOCKS5TunnelRequestCmd", "TunnelTrafficReport"}
 Stored(s, obj) == obj \in Present(s) \cup Doms(s) \cup {"k1", "k0"}
+Dev(d) == d \in Devs
+
+DelMap(s, obj) == CASE obj = "m1" -> [s EXCEPT !.m1 = FALSE] [] obj = "m0" -> [s EXCEPT !.m0 = FALSE]
+                    [] obj = "mz" -> [s EXCEPT !.mz = FALSE] [] OTHER -> [s EXCEPT !.m2 = None]
+DelDom(s, obj) == IF obj = "d1" THEN [s EXCEPT !.d1 = FALSE] ELSE [s EXCEPT !.d2 = None]
+\* what a list command answers with; unreadable records are left out (GetClientPortMappings skips them)
+ListSet(s, a, dir, flt) ==
+  (IF Dev("listByIndex")
+   THEN {x \in Indexed(s, a) : CASE dir = "inbound" -> Listen(s, x) # a [] dir = "outbound" -> Listen(s, x) = a [] OTHER -> TRUE}
+   ELSE {x \in Listed(s, a) : CASE dir = "inbound" -> Target(s, x) = a [] dir = "outbound" -> Listen(s, x) = a [] OTHER -> TRUE})
+  \ (IF flt = "readAll" THEN {"m1"} ELSE {})
 
 Outcome(s, a, rg, ty0, obj, flt) ==
   LET ty == Base(ty0) IN
-  CASE flt = "read1" /\ ty \in FaultRows /\ Stored(s, obj) /\ a # None -> Fail(s)   \* unreadable record: no party check possible, refused
-    [] flt = "read1" /\ ty \in FaultRows /\ a = None /\ ty = "HTTPDomainDelete" /\ ~Fixed("domainAuth") /\ Stored(s, obj) -> Fail(s)
+  CASE Dev("faultOpen") /\ flt # "none" /\ ty \in {"MappingGet", "MappingDelete", "HTTPDomainDelete"} /\ Stored(s, obj) /\ a # None ->
+         \* deviation: the unreadable record is taken for a half-deleted object; on to the effect, no party check
+         (CASE ty = "MappingGet" -> IF flt = "read1" THEN R("ok", {E("ret", obj, Parties(s, obj), a, None)}, s) ELSE Fail(s)
+            [] ty = "MappingDelete" -> R("ok", {E("del", obj, Parties(s, obj), a, None)}, DelMap(s, obj))
+            [] OTHER -> R("ok", {E("del", obj, {DomOwner(s, obj)}, a, None)}, DelDom(s, obj)))
+    [] flt # "none" /\ ty \in FaultRows /\ Stored(s, obj) /\ a # None -> Fail(s)   \* unreadable record: no party check possible, refused
+    [] flt # "none" /\ ty \in FaultRows /\ a = None /\ ty = "HTTPDomainDelete" /\ ~Fixed("domainAuth") /\ Stored(s, obj) -> Fail(s)
+    \* session layer: the tunnel request reads the mapping first and fails; the traffic report ignores an unreadable mapping
+    [] flt # "none" /\ ty = "SOCKS5TunnelRequestCmd" /\ obj \in Present(s) -> Fail(s)
+    [] flt # "none" /\ ty = "TunnelTrafficReport" /\ obj \in Present(s) -> IF Fixed("trafficParty") /\ a = None THEN Fail(s) ELSE Quiet(s)
     [] ty \in {"ConfigGet", "MappingList"} ->
-         \* MappingList: obj is the direction argument ("none" = both)
+         \* MappingList: obj is the direction argument ("none" = both); a fault there is on m1's record
          IF a = None THEN Fail(s)
-         ELSE R("ok", {E("ret", m, Parties(s, m), a, None) :
-                         m \in {x \in Listed(s, a) : CASE obj = "inbound" -> Target(s, x) = a [] obj = "outbound" -> Listen(s, x) = a [] OTHER -> TRUE}}, s)
+         ELSE R("ok", {E("ret", m, Parties(s, m), a, None) : m \in ListSet(s, a, obj, flt)}, s)
     [] ty = "ConnectionCodeGenerate" ->
          IF a = None THEN Fail(s) ELSE R("ok", {E("add", "g" \o a, {a}, a, None)}, [s EXCEPT !.gen = @ \cup {a}])
     [] ty = "ConnectionCodeList" ->
@@ -123,9 +162,7 @@ Outcome(s, a, rg, ty0, obj, flt) ==
     [] ty = "MappingDelete" ->
          IF a = None \/ obj \notin Present(s) THEN Fail(s)
          ELSE IF a \notin Parties(s, obj) THEN Fail(s)
-         ELSE R("ok", {E("del", obj, Parties(s, obj), a, None)},
-                CASE obj = "m1" -> [s EXCEPT !.m1 = FALSE] [] obj = "m0" -> [s EXCEPT !.m0 = FALSE]
-                  [] obj = "mz" -> [s EXCEPT !.mz = FALSE] [] OTHER -> [s EXCEPT !.m2 = None])
+         ELSE R("ok", {E("del", obj, Parties(s, obj), a, None)}, DelMap(s, obj))
     [] ty \in {"HTTPDomainGetBaseDomains", "HTTPDomainCheckSubdomain", "HTTPDomainGenSubdomain", "RpcInvoke"} -> R("ok", {}, s)
     [] ty = "HTTPDomainCreate" ->
          \* unauthenticated: refused by the patched handler; before the patch by HTTPDomainMapping.Validate (client id must be positive)
@@ -137,7 +174,7 @@ Outcome(s, a, rg, ty0, obj, flt) ==
          IF a = None /\ Fixed("domainAuth") THEN Fail(s)
          ELSE IF obj \notin Doms(s) THEN R("ok", {}, s)                                  \* "already deleted" is a success (deviation when a = none)
          ELSE IF DomOwner(s, obj) # a THEN Fail(s)
-         ELSE R("ok", {E("del", obj, {a}, a, None)}, IF obj = "d1" THEN [s EXCEPT !.d1 = FALSE] ELSE [s EXCEPT !.d2 = None])
+         ELSE R("ok", {E("del", obj, {a}, a, None)}, DelDom(s, obj))
     [] ty = "SOCKS5TunnelRequestCmd" ->
          \* "source client = ListenClientID" is the whole check: for a server-listened mapping (listen id 0) it is met by
          \* exactly the connections that never authenticated - unless "socksAuth" refuses those first
@@ -202,13 +239,23 @@ ClaimPairs(s, t) == IF Emit /\ Policy[t].need /\ s.wv = "base" /\ PlainState
                     ELSE {<<"absent", "absent">>}
 
 \* one command = row x packet type x object x variant [cl, bf, cid, flt]:
-\*   cid  "reused": the CommandId (client chosen) is the one another client's command of the same type just carried
-\*   flt  "read1":  one transient failure of the storage read of the named object's main record during the command
+\*   cid  "reused": the CommandId (client chosen) is the one another client's command just carried
+\*   flt  see Outcome
 Plain == [cl |-> "absent", bf |-> "absent", cid |-> "fresh", flt |-> "none"]
+\* (exhaustive runs explore the fault dimension on the first command only - a refused command leaves the state unchanged,
+\* so later positions add transitions but no states; the generators vary it everywhere)
+Faults(s, t, obj) == IF ~Emit /\ ncmd > 0 THEN {} ELSE
+       (IF Base(t) \in FaultRows /\ Stored(s, obj) /\ s.wv = "base" THEN {"read1", "readAll"} ELSE {})
+  \cup (IF Base(t) \in SessionFaultRows /\ obj \in Present(s) /\ s.wv = "base" THEN {"read1"} ELSE {})
+  \cup (IF t = "MappingList" /\ s.m1 /\ s.wv \in {"base", "migrated"} THEN {"readAll"} ELSE {})
 Variants(s, t, obj) ==
   IF primed # <<>> THEN {[Plain EXCEPT !.cid = "reused"]}
   ELSE {[Plain EXCEPT !.cl = cp[1], !.bf = cp[2]] : cp \in ClaimPairs(s, t)}
-       \cup (IF Base(t) \in FaultRows /\ Stored(s, obj) /\ s.wv = "base" THEN {[Plain EXCEPT !.flt = "read1"]} ELSE {})
+       \cup {[Plain EXCEPT !.flt = f] : f \in Faults(s, t, obj)}
+       \* two dimensions at once where a fallback suggests itself: the tunnel request cannot read the mapping AND
+       \* its body names a target client
+       \cup (IF Base(t) = "SOCKS5TunnelRequestCmd" /\ obj \in Present(s) /\ s.wv = "base" /\ Emit /\ PlainState
+            THEN {[Plain EXCEPT !.flt = "read1", !.bf = b] : b \in {"third", "victim"}} ELSE {})
 \* who sends the priming command: a party for whom it succeeds (the listen client for the tunnel request)
 Primer(t) == IF Base(t) = "SOCKS5TunnelRequestCmd" THEN "A" ELSE "B"
 
@@ -249,16 +296,20 @@ Prime(ty, obj) ==
         /\ log' = {[ty |-> ty, auth |-> a, e |-> e] : e \in r.effs}
         /\ outs' = {[ty |-> ty, auth |-> a, out |-> r.out]}
         /\ hist' = Append(hist, [op |-> "Prime", ty |-> ty, obj |-> obj, by |-> a])
-  /\ primed' = <<ty, obj>>
+        /\ primed' = <<ty, obj, r.out, {e \in r.effs : e.k = "ret"}>>
   /\ UNCHANGED <<cn, ctl, ncmd>>
 
 Cmd(ty, pt, v, obj) ==
   /\ cn.alive /\ ncmd < MaxCmds
-  /\ primed # <<>> => ty = primed[1]
+  \* the reused command id travels on a command of the same type, or - after B's MappingGet of m1 - of any type with a demand
+  /\ primed # <<>> => ty = primed[1] \/ (primed[1] = "MappingGet" /\ primed[2] = "m1" /\ Policy[ty].need /\ pt = "cmd")
   /\ (Emit /\ st.wv # "base") => PlainState /\ Policy[ty].need   \* world variants: plain authentication states, rows with a demand
   /\ ~(ty = "ConnectionCodeGenerate" /\ cn.auth \in st.gen)
   /\ ~(ty = "HTTPDomainCreate" /\ st.d2 # None)
-  /\ LET r == Outcome(st, cn.auth, cn.reg, ty, obj, v.flt)
+  /\ LET replayed == /\ primed # <<>> /\ primed[3] = "ok" /\ Policy[ty].set = "server"     \* (deviations) duplex commands of the executor
+                     /\ (Dev("replayById") \/ (Dev("replayByTypeId") /\ ty = primed[1]))
+         r == IF replayed THEN R("ok", primed[4], st)       \* the primer's answer, produced for the primer
+              ELSE Outcome(st, cn.auth, cn.reg, ty, obj, v.flt)
          h == Append(hist, [op |-> "Cmd", ty |-> ty, pt |-> pt, claims |-> v.cl, bf |-> v.bf, cid |-> v.cid, flt |-> v.flt,
                             obj |-> obj, hc |-> HistClass, exp |-> [out |-> r.out, effs |-> r.effs]])
      IN /\ st' = r.s
